@@ -475,6 +475,9 @@ pub async fn catch_up_sub(
                     else => break
                 };
 
+                #[cfg(feature = "verif-hooks")]
+                klukai_types::verif::apoint("sub.catchup.queue_recv").await;
+
                 if let QueryEventMeta::Change(change_id) = meta
                     && let Err(_e) = queue_tx.try_send((buf, change_id))
                 {
